@@ -22,7 +22,8 @@ SPECS = {
     'C10': [(GH, ['fast_concatenate', 'gen_gals']), ('abacusnbody/hod/abacus_hod.py', ['_searchsorted_parallel'])],
     'C12': [('abacusnbody/hod/abacus_hod.py', ['_searchsorted_parallel'])],
     'C13': [(PS, ['calc_power', 'get_field', 'get_field_fft', 'get_interlaced_field_fft', 'shift_field_fft',
-                  'get_W_compensated', 'normalize_field', 'get_raw_power', 'calc_pk_from_deltak', '_normalize'])],
+                  'get_W_compensated', 'normalize_field', 'get_raw_power', 'calc_pk_from_deltak', '_normalize',
+                  'bin_kmu', 'bin_kppi'])],      # N_mode / the binned table: the kernels C08 models
     'C14': [('abacusnbody/data/asdf.py', ['BloscCompressor.compress'])],   # decompress is translated (tools/gen/c14.py)
     'C15': [('abacusnbody/data/pack9.py', ['unpack_pack9', '_unpack_pack9', '_expand_to_short'])],
     'C16': [('abacusnbody/data/read_abacus.py', ['read_asdf', '_resolve_columns'])],
